@@ -51,6 +51,7 @@ type nbtDecEv struct {
 	Ty        *goType `json:"ty,omitempty"`
 	Val       any     `json:"val,omitempty"`
 	DropFirst bool    `json:"dropfirst"`
+	Prior     string  `json:"prior"`
 	// carrier
 	Out []int `json:"out,omitempty"`
 }
@@ -185,6 +186,9 @@ func capBytes(b []byte, n int) []byte {
 }
 
 // shaped typed target: a Go type built from the document's own shape
+// shapeVariant selects the element kinds of typed arrays in shaped destinations (one choice for a whole tree)
+var shapeVariant int
+
 func shapeOf(n *nbtNode, skipFirst bool) *goType {
 	switch n.T {
 	case 1:
@@ -200,13 +204,13 @@ func shapeOf(n *nbtNode, skipFirst bool) *goType {
 	case 6:
 		return &goType{K: "f64"}
 	case 7:
-		return &goType{K: "slice", E: &goType{K: "u8"}}
+		return &goType{K: "slice", E: &goType{K: []string{"u8", "i8", "u8"}[shapeVariant%3]}}
 	case 8:
 		return &goType{K: "str"}
 	case 11:
-		return &goType{K: "slice", E: &goType{K: "i32"}}
+		return &goType{K: "slice", E: &goType{K: []string{"i32", "u32", "u32"}[shapeVariant%3]}}
 	case 12:
-		return &goType{K: "slice", E: &goType{K: "i64"}}
+		return &goType{K: "slice", E: &goType{K: []string{"i64", "u64", "i64"}[shapeVariant%3]}}
 	case 9:
 		if len(n.Lst) == 0 {
 			return &goType{K: "slice", E: &goType{K: "str"}}
@@ -260,10 +264,54 @@ func isPrintableASCII(s string) bool {
 }
 
 func nbtDecodeShaped(fmtName string, input []byte, t *goType, class string, dropFirst bool) nbtDecEv {
-	ev := nbtDecEv{DropFirst: dropFirst, K: "decgo", Fmt: fmtName, Input: ints(input), Target: "shaped", Class: class, Tree: &nbtNode{}, Name: []int{}, Ty: t, Val: []any{}, Out: []int{}}
+	return nbtDecodeShapedPrior(fmtName, input, t, class, dropFirst, "")
+}
+
+// nbtPrefill puts stale content into a destination before it is decoded into: slices longer than any generated
+// array ("longer") or short with spare capacity ("sparecap"), scalars and strings non-zero. Every field of a shaped
+// destination is present in the document, so nothing of this may survive the decode.
+func nbtPrefill(v reflect.Value, mode string, depth int) {
+	switch v.Kind() {
+	case reflect.Struct:
+		for i := 0; i < v.NumField(); i++ {
+			if v.Field(i).CanSet() {
+				nbtPrefill(v.Field(i), mode, depth)
+			}
+		}
+	case reflect.Slice:
+		n, c := 70, 70
+		if mode == "sparecap" {
+			n, c = 1, 96
+		}
+		if depth > 0 {
+			n, c = 2, 2
+		}
+		sl := reflect.MakeSlice(v.Type(), n, c)
+		for i := 0; i < n; i++ {
+			nbtPrefill(sl.Index(i), mode, depth+1)
+		}
+		v.Set(sl)
+	case reflect.Int8, reflect.Int16, reflect.Int32, reflect.Int64, reflect.Int:
+		v.SetInt(0x55)
+	case reflect.Uint8, reflect.Uint16, reflect.Uint32, reflect.Uint64:
+		v.SetUint(0x55)
+	case reflect.Float32, reflect.Float64:
+		v.SetFloat(85.5)
+	case reflect.String:
+		v.SetString("stale")
+	case reflect.Bool:
+		v.SetBool(true)
+	}
+}
+
+func nbtDecodeShapedPrior(fmtName string, input []byte, t *goType, class string, dropFirst bool, prior string) nbtDecEv {
+	ev := nbtDecEv{Prior: prior, DropFirst: dropFirst, K: "decgo", Fmt: fmtName, Input: ints(input), Target: "shaped", Class: class, Tree: &nbtNode{}, Name: []int{}, Ty: t, Val: []any{}, Out: []int{}}
 	br := bytes.NewReader(input)
 	ev.Panicked, ev.Msg = catch(func() {
 		rv := reflect.New(t.reflectType())
+		if prior != "" {
+			nbtPrefill(rv.Elem(), prior, 0)
+		}
 		d := nbt.NewDecoder(br)
 		d.NetworkFormat(fmtName == "network")
 		_, err := d.Decode(rv.Interface())
@@ -327,6 +375,7 @@ func nbtLineSig(raw []byte) string {
 		Ty       *goType `json:"ty"`
 		Fmt      string  `json:"fmt"`
 		Probe    string  `json:"probe"`
+		Prior    string  `json:"prior"`
 	}
 	json.Unmarshal(raw, &e)
 	switch e.K {
@@ -336,6 +385,9 @@ func nbtLineSig(raw []byte) string {
 		}
 		return fmt.Sprintf("nbt encode rejected by NBT_Trace: type=%s byptr=%v err=%v panicked=%v mutated=%v backok=%v backsame=%v", goSigClass(e.Ty), e.ByPtr, e.Err, e.Panicked, e.Mutated, e.BackOk, e.BackSame)
 	case "decgo":
+		if e.Prior != "" {
+			return fmt.Sprintf("nbt typed decode into a used destination (%s) rejected by NBT_Trace: input=%s ok=%v panicked=%v", e.Prior, e.Class, e.Ok, e.Panicked)
+		}
 		return fmt.Sprintf("nbt typed decode rejected by NBT_Trace: input=%s ok=%v panicked=%v", e.Class, e.Ok, e.Panicked)
 	case "carrier":
 		diff := carrierDiff(raw)
@@ -450,6 +502,7 @@ func nbtRejudgeLine(env *vk.Env, raw []byte) (sig, detail string, rejected bool)
 		Name      []int   `json:"name"`
 		ByPtr     bool    `json:"byptr"`
 		DropFirst bool    `json:"dropfirst"`
+		Prior     string  `json:"prior"`
 		Probe     string  `json:"probe"`
 	}
 	json.Unmarshal(raw, &head)
@@ -460,7 +513,7 @@ func nbtRejudgeLine(env *vk.Env, raw []byte) (sig, detail string, rejected bool)
 		tr.Add(ev)
 		detail = vkTrunc(mustJSON(ev), 900)
 	case head.K == "decgo":
-		ev := nbtDecodeShaped(head.Fmt, bytesOf(head.Input), head.Ty, head.Class, head.DropFirst)
+		ev := nbtDecodeShapedPrior(head.Fmt, bytesOf(head.Input), head.Ty, head.Class, head.DropFirst, head.Prior)
 		tr.Add(ev)
 		detail = vkTrunc(mustJSON(ev), 900)
 	case strings.HasPrefix(head.Target, "raw-in-"):
@@ -591,9 +644,14 @@ func nbtDecodeAll(tr *vk.Trace, fmtName string, doc []byte, tree *nbtNode, class
 			if skipFirst && (tree.T != 10 || len(tree.Ent) < 2) {
 				continue
 			}
-			if t := shapeOf(tree, skipFirst); t != nil {
+			shapeVariant = rng.Intn(3)
+			t := shapeOf(tree, skipFirst)
+			shapeVariant = 0
+			if t != nil {
 				if pan, _ := catch(func() { t.reflectType() }); !pan {
 					tr.Add(nbtDecodeShaped(fmtName, input, t, class, skipFirst))
+					// the same decode into a destination that was used before
+					tr.Add(nbtDecodeShapedPrior(fmtName, input, t, class, skipFirst, []string{"longer", "sparecap"}[rng.Intn(2)]))
 				}
 			}
 		}
